@@ -465,6 +465,26 @@ func Random(r *mon.Rand, o *Opts) *Spec {
 			}
 		}
 	}
+	// every syscall number of one whole mask word (32 numbers), so that single words of the mask are all ones
+	// although the rule is not an "all syscalls" rule: the last word a decoder looks at (62), the first, others
+	if fr := r.Fork(56); len(s.Syscalls) > 0 && fr.Chance(1, 25) {
+		for _, w := range [][]int{{62}, {0}, {61, 62}, {63}, {fr.Intn(64)}, {0, 62}, {1, 62}}[fr.Intn(7)] {
+			for b := 0; b < 32; b++ {
+				n := w*32 + b
+				s.Syscalls = append(s.Syscalls, Syscall{Text: strconv.Itoa(n), Num: n, Independent: true})
+			}
+		}
+	}
+	// a syscall may be requested more than once (-S open -S 2, -S open,close,open): the mask is a set of bits
+	if fr := r.Fork(55); len(s.Syscalls) > 0 && fr.Chance(1, 6) {
+		for i, n := 0, fr.Range(1, 3); i < n; i++ {
+			d := mon.Pick(fr, s.Syscalls)
+			if fr.Bool() {
+				d = Syscall{Text: strconv.Itoa(d.Num), Num: d.Num, Independent: d.Independent}
+			}
+			s.Syscalls = append(s.Syscalls, d)
+		}
+	}
 	if len(s.Syscalls) > 0 && o.AllLast && r.Chance(1, 8) {
 		s.AllLast = true
 	}
